@@ -220,11 +220,52 @@ func mkOpnd(d rdesc) opnd { return opnd{r: d.build(), m: d.model(), kind: d.kind
 // operandOK reports a wrongly CONSTRUCTED operand under the constructor's oracle, so that the
 // merge oracles are not blamed for it (the case is then skipped).
 func (c *c19) operandOK(o opnd) bool {
+	c.accessors(o)
 	if canonReal(o.r) == canonModel(o.m.attrs) && o.r.SchemaURL() == o.m.schema && o.r.Len() == len(o.m.attrs) {
 		return true
 	}
 	c.r.FailHere("list-attrs|merge-operand-construction", map[string]any{"operand": o.desc}, "operand %s was constructed as %s@%q, model %s@%q", o.desc, canonReal(o.r), o.r.SchemaURL(), canonModel(o.m.attrs), o.m.schema)
 	return false
+}
+
+func c19kind(k int) string { return [...]string{"built", "nil", "Empty()"}[k] }
+
+// accessors: the other views of a resource (Set, Iter, Encoded, Equivalent, String, MarshalJSON, a nil
+// receiver everywhere) agree with Attributes() -- they are what "equal resources have equal map
+// identities" and every consumer of a merged resource go through.
+func (c *c19) accessors(o opnd) {
+	defer func() {
+		if p := recover(); p != nil {
+			c.r.FailHere("accessor-panic|"+c19kind(o.kind), map[string]any{"operand": o.desc}, "an accessor of %s panicked: %v", o.desc, p)
+		}
+	}()
+	ref := attribute.NewSet(o.r.Attributes()...)
+	if set := o.r.Set(); set == nil || !set.Equals(&ref) || o.r.Equivalent() != ref.Equivalent() {
+		c.r.FailHere("accessors|Set/Equivalent differ from Attributes|"+c19kind(o.kind), map[string]any{"operand": o.desc}, "Set()/Equivalent() of %s do not hold what Attributes() lists", o.desc)
+	}
+	if got, want := o.r.Encoded(attribute.DefaultEncoder()), ref.Encoded(attribute.DefaultEncoder()); got != want {
+		c.r.FailHere("accessors|Encoded differs from Attributes|"+c19kind(o.kind), map[string]any{"operand": o.desc}, "Encoded = %q, the attributes encode as %q", got, want)
+	}
+	if got, want := o.r.String(), ref.Encoded(attribute.DefaultEncoder()); got != want {
+		c.r.FailHere("accessors|String differs from Attributes|"+c19kind(o.kind), map[string]any{"operand": o.desc}, "String = %q, the attributes encode as %q", got, want)
+	}
+	n := 0
+	for it := o.r.Iter(); it.Next(); n++ {
+		if v, ok := ref.Value(it.Attribute().Key); !ok || v != it.Attribute().Value {
+			c.r.FailHere("accessors|Iter differs from Attributes|"+c19kind(o.kind), map[string]any{"operand": o.desc}, "Iter yields %v", it.Attribute())
+		}
+	}
+	if n != ref.Len() || o.r.Len() != ref.Len() {
+		c.r.FailHere("accessors|Iter/Len differ from Attributes|"+c19kind(o.kind), map[string]any{"operand": o.desc}, "Iter visits %d, Len %d, Attributes %d", n, o.r.Len(), ref.Len())
+	}
+	gj, err := o.r.MarshalJSON()
+	wj, _ := ref.MarshalJSON()
+	if err != nil || (ref.Len() > 0 && string(gj) != string(wj)) { // how an empty resource is spelled in JSON (null / []) is nobody's business
+		c.r.FailHere("accessors|MarshalJSON differs from Attributes|"+c19kind(o.kind), map[string]any{"operand": o.desc}, "MarshalJSON = %s (%v), the attribute set marshals to %s", gj, err, wj)
+	}
+	if !o.r.Equal(o.r) {
+		c.r.FailHere("accessors|resource not Equal to itself|"+c19kind(o.kind), map[string]any{"operand": o.desc}, "%s.Equal(itself) is false", o.desc)
+	}
 }
 
 // ---------------------------------------------------------------------------------------
